@@ -16,7 +16,8 @@ import time
 
 VERIF_DIR = os.path.dirname(os.path.dirname(os.path.abspath(__file__)))
 OUT_DIR = os.path.join(VERIF_DIR, "out")
-EVIDENCE_DIR = os.path.join(VERIF_DIR, "evidence")
+# sensitivity runs (checks against a deliberately broken scratch copy) must not overwrite the evidence of the real tree
+EVIDENCE_DIR = os.environ.get("VERIF_EVIDENCE_DIR") or os.path.join(VERIF_DIR, "evidence")
 CORPUS_DIR = os.path.join(VERIF_DIR, "corpus")
 FINDINGS_FILE = os.path.join(VERIF_DIR, "known_findings.json")
 
@@ -228,7 +229,7 @@ def write_evidence(prop: str, tier: str, seed: int, level: str, coverage: dict,
         "repo_rev": repo_rev(),
     }
     path = os.path.join(EVIDENCE_DIR, prop + ".json")
-    tmp = path + ".tmp"
+    tmp = path + ".tmp.%d" % os.getpid()
     with open(tmp, "w") as f:
         json.dump(ev, f, indent=1, sort_keys=True, default=_json_default)
     os.replace(tmp, path)
